@@ -8,6 +8,7 @@ open AsciiStr Style
 
 def linkOk (l : List Char) : Bool := l.all fun c => c != ESC && c != '\n' && c != '\r'
 def idOk (l : List Char) : Bool := l.all fun c => c != ESC && c != '\n' && c != '\r' && c != ';'
+def noBel (l : List Char) : Bool := l.all fun c => c != BEL
 
 /-- The hypothesis of the round trip on one segment (`noEsc`): no escape character and no stripped
 control code in the text, no escape / line break in the link and its id, colours in the form the
@@ -16,6 +17,8 @@ structure SegOk (g : Seg) : Prop where
   text : textOk g.text = true
   id : idOk g.linkId = true
   style : ∀ s, g.style = some s → Inv s ∧ canonStyle s = true ∧ linkOk (s.link.getD []) = true
+  /-- no BEL in the link and its id (BEL ends an OSC string in the repaired tokenizer) -/
+  bel : noBel g.linkId = true ∧ ∀ s, g.style = some s → noBel (s.link.getD []) = true
 
 /-! ### observations -/
 
@@ -108,10 +111,14 @@ theorem R_oscClose (cfg : Cfg) (st : Style) (rest acc : List Char) :
   simpa [oscClose, linkOrNone] using this
 
 theorem R_oscOpen (cfg : Cfg) (st : Style) (id link rest acc : List Char) (hid : idOk id = true)
-    (hl : linkOk link = true) (hne : link ≠ []) :
+    (hl : linkOk link = true) (hne : link ≠ []) (hidb : noBel id = true) (hlb : noBel link = true) :
     R cfg st (oscOpen id link ++ rest) acc =
       push (flushRuns st acc) (R cfg (updateLink cfg.sv st (some link)) rest []) := by
-  have hp : ∀ c ∈ ['i', 'd', '='] ++ id, c ≠ ESC ∧ c ≠ '\n' ∧ c ≠ ';' := by
+  have hidb' : ∀ c ∈ id, c ≠ BEL := by
+    simpa [noBel] using hidb
+  have hlb' : ∀ c ∈ link, c ≠ BEL := by
+    simpa [noBel] using hlb
+  have hp : ∀ c ∈ ['i', 'd', '='] ++ id, c ≠ ESC ∧ c ≠ '\n' ∧ c ≠ ';' ∧ c ≠ BEL := by
     intro c hc
     simp only [List.mem_append, List.mem_cons, List.not_mem_nil, or_false] at hc
     rcases hc with (rfl | rfl | rfl) | hc
@@ -119,11 +126,11 @@ theorem R_oscOpen (cfg : Cfg) (st : Style) (id link rest acc : List Char) (hid :
     · decide
     · decide
     · simp only [idOk, List.all_eq_true, Bool.and_eq_true, bne_iff_ne, ne_eq] at hid
-      exact ⟨(hid c hc).1.1.1, (hid c hc).1.1.2, (hid c hc).2⟩
-  have hl' : ∀ c ∈ link, c ≠ ESC ∧ c ≠ '\n' := by
+      exact ⟨(hid c hc).1.1.1, (hid c hc).1.1.2, (hid c hc).2, hidb' c hc⟩
+  have hl' : ∀ c ∈ link, c ≠ ESC ∧ c ≠ '\n' ∧ c ≠ BEL := by
     intro c hc
     simp only [linkOk, List.all_eq_true, Bool.and_eq_true, bne_iff_ne, ne_eq] at hl
-    exact ⟨(hl c hc).1.1, (hl c hc).1.2⟩
+    exact ⟨(hl c hc).1.1, (hl c hc).1.2, hlb' c hc⟩
   have := R_osc8 cfg st (['i', 'd', '='] ++ id) link rest acc hp hl'
   have hlo : linkOrNone link = some link := by
     cases link with
@@ -217,6 +224,7 @@ theorem seg_roundtrip (cfg : Cfg) (g : Seg) (hg : SegOk g) (st : Style) (hst : B
           | nil => simp [h, strTruthy] at hlk
           | cons a b => exact ⟨a :: b, rfl, by simp⟩
       have hlinkOk : linkOk link = true := by simpa [hlinkeq] using hlink
+      have hlinkBel : noBel link = true := by simpa [hlinkeq] using hg.bel.2 s hsty
       have hlk' : strTruthy (some link) = true := by rw [← hlinkeq]; exact hlk
       have hlinkCR : ∀ c ∈ link, c ≠ '\r' := by
         intro c hc
@@ -259,7 +267,7 @@ theorem seg_roundtrip (cfg : Cfg) (g : Seg) (hg : SegOk g) (st : Style) (hst : B
             · rw [hsalink, hlinkeq]
           simp [this, hsty]
         · intro rest
-          have e1 := R_oscOpen cfg st g.linkId link (g.text ++ oscClose ++ rest) acc hg.id hlinkOk hlne
+          have e1 := R_oscOpen cfg st g.linkId link (g.text ++ oscClose ++ rest) acc hg.id hlinkOk hlne hg.bel.1 hlinkBel
           have e2 := R_text cfg sa g.text (oscClose ++ rest) [] (textOk_noEsc hg.text)
           have e3 := R_oscClose cfg sa rest ([] ++ g.text)
           simp only [List.append_assoc, List.nil_append] at e1 e2 e3 ⊢
@@ -289,7 +297,7 @@ theorem seg_roundtrip (cfg : Cfg) (g : Seg) (hg : SegOk g) (st : Style) (hst : B
           simp [this, hsty]
         · intro rest
           have e1 := R_oscOpen cfg st g.linkId link
-            (sgrOpen (joinWith ';' (ps.map (·.1))) ++ g.text ++ sgrReset ++ oscClose ++ rest) acc hg.id hlinkOk hlne
+            (sgrOpen (joinWith ';' (ps.map (·.1))) ++ g.text ++ sgrReset ++ oscClose ++ rest) acc hg.id hlinkOk hlne hg.bel.1 hlinkBel
           have e2 := R_sgr cfg sa st' (joinWith ';' (ps.map (·.1))) (g.text ++ sgrReset ++ oscClose ++ rest) []
             (ps.map (·.2)) (plist_body_ok ps hpl) hne (sgrCodes_plist cfg ps hpl hps) happ
           have e3 := R_text cfg st' g.text (sgrReset ++ oscClose ++ rest) [] (textOk_noEsc hg.text)
